@@ -118,15 +118,7 @@ def rebaseZ (cur : ZipCursor Elem) (xs ys : List Elem) : ZipCursor Elem :=
     done2 := ys.take cur.done1.length, todo2 := ys.drop cur.done1.length, removed := cur.removed }
 
 /-- `CC_ARRAY_SIZED_FOREACH`: a fresh iterator driven to `CC_ITER_END` -/
-def foreachM (a : ArraySized) (m : Mem) : List Elem × Mem :=
-  let rec go : Nat → ArraySized.Iter → Mem → List Elem → List Elem × Mem
-    | 0, _, m, acc => (acc, m)
-    | f + 1, it, m, acc =>
-      let r := ArraySized.iterNext it a m
-      match r.2.1 with
-      | some c => go f r.2.2.1 r.2.2.2 (acc ++ [c])
-      | none => (acc, r.2.2.2)
-  go (a.size + 1) {} m []
+def foreachM (a : ArraySized) (m : Mem) : List Elem × Mem := a.foreach m
 def foreachZipM (a1 a2 : ArraySized) (m : Mem) : List (Elem × Option Elem) × Mem :=
   let rec go : Nat → ArraySized.Iter → Mem → List (Elem × Option Elem) → List (Elem × Option Elem) × Mem
     | 0, _, m, acc => (acc, m)
